@@ -336,6 +336,22 @@ impl RuntimeData {
             }
         }
 
+        // open upvalues are linked into a list that register_upvalue / close_upvalues walk, they
+        // must stay alive until they are closed, even if their closure is already garbage
+        let mut upvalue = self.open_upvalues;
+        unsafe {
+            while let Some(t) = upvalue.as_mut() {
+                upvalue = t
+                    .as_upvalue()
+                    .map(|u| u.next)
+                    .unwrap_or(std::ptr::null_mut());
+                if matches!(t.marker, GcMarker::White) {
+                    t.marker = GcMarker::Gray;
+                    progress_tracker.push(t);
+                }
+            }
+        }
+
         macro_rules! checked_enqueue_value {
             ($val: ident) => {
                 if let Value::Object(mut value) = $val {
